@@ -23,7 +23,7 @@ def has_this(s):
 
 
 def const_this(s):
-    return s["fk"] in ("cmethod", "getter", "opIndex", "opCast", "opEq")
+    return s["fk"] in ("cmethod", "getter", "opIndex", "opCast", "opEq", "opBin")
 
 
 class DriveError(Exception):
@@ -231,11 +231,14 @@ class Driver:
             return ("void",)
         return exp_desc(s["ret"], fn["fam"], self.string_opt, ret=True)
 
-    def find_wrapper(self, gid, k):
-        key = (gid, k)
+    def find_wrapper(self, gid, k, via=None):
+        """via: look the function up in (and call it through the wrapper of) the derived class `via` that overrides it"""
+        key = (gid, k, via)
         if key in self.callcache:
             return self.callcache[key]
         fn = self.fns[gid]
+        if via:
+            fn = dict(fn, cls="%s_%d" % (via, fn["fam"]))
         s = fn["sig"]
         want_p = self.expected_params(fn, k)
         want_r = self.expected_ret(fn)
@@ -254,7 +257,7 @@ class Driver:
             # accessor wrappers of data members name their parameters themselves
             if got_p == want_p and got_r == want_r and (got_n == want_n or s["fk"] in ("getter", "setter")):
                 hits.append((wi, w))
-        if gid not in self.checked:
+        if gid not in self.checked and not via:
             self.checked.add(gid)
             self.emit(dict(dbcheck=dict(
                 gid=gid, scoped=(fn["cls"] + "::" if fn["cls"] else "") + fn["cname"], nd=s["nd"],
@@ -466,7 +469,7 @@ class Driver:
         if op in ("new", "call"):
             fn = self.fns[st["gid"]]
             s = fn["sig"]
-            r = self.find_wrapper(st["gid"], st["k"])
+            r = self.find_wrapper(st["gid"], st["k"], st.get("via"))
             if r[0] != "ok":
                 raise DriveError(r[1])
             (call, rdesc), flags = r[1], r[2]
@@ -474,7 +477,7 @@ class Driver:
                 raise DriveError("database flags of %s: %s" % (fn["cname"], flags))
             args = self.arg_values(st)
             if op == "call" and has_this(s):
-                decl = s["cls"]
+                decl = st.get("via") or s["cls"]
                 args = [self.view(st["this"], decl)] + args
             raw = self.canon_ret(rdesc, call(args))
             if op == "new":
